@@ -110,71 +110,7 @@ def run(ctx):
             seen.add(lid)
             key = "%s|%s|dyn-without-emit" % (e.state, fmt_mask(e.c0))
             r.inst(key)
-    # ------------------------------------------------------------------ R03.2
-    r = ctx.rule("R03.2", "tag tables agree with each other and with the HTML specification (text-mode switching tags, foreign-content break-out list, integration points, annotation-xml encodings)", "E-AST (finite-domain abstract interpretation of the tag predicates)", floor=5)
-    it = Interp(idx)
-    domain = [OTHER, EMPTY] + tags
-
-    def table_of(fn_name, post=lambda v: v):
-        f = [x for x in idx.fns if x.name == fn_name and x.owner is None]
-        if len(f) != 1:
-            raise EngineError("anchor fn " + fn_name)
-        out = {}
-        for t in domain:
-            it.effects = []
-            out[t] = post(it.call_fn(f[0], [t]))
-        return out
-    # T2 tag -> text type
-    def tt(v):
-        if isinstance(v, str):
-            return v.split("::")[-1]
-        if isinstance(v, tuple):
-            return v[0].split("::")[-1]
-        return repr(v)
-    t2 = table_of("get_text_type_adjustment", tt)
-    got = {lc(k): v for k, v in t2.items() if v not in ("None",)}
-    r.inst("T2:text-type-by-tag", sample={"table": got})
-    for k in sorted(set(got) | set(T.TEXT_TYPE_BY_TAG)):
-        if got.get(k) != T.TEXT_TYPE_BY_TAG.get(k):
-            r.violate("T2:" + k, f"get_text_type_adjustment maps <{k}> to {got.get(k)}, the specification says {T.TEXT_TYPE_BY_TAG.get(k)}", "src/parser/tree_builder_simulator/mod.rs")
-    # T1 ambiguity assert list == keys of T2
-    f = [x for x in idx.fns if x.name == "assert_not_ambiguous_text_type_switch"]
-    if len(f) != 1:
-        raise EngineError("anchor assert_not_ambiguous_text_type_switch")
-    amb = set()
-    for t in domain:
-        v = it.call_fn(f[0], [t])
-        if isinstance(v, tuple) and v[0] == "Err":
-            amb.add(t)
-    r.inst("T1:ambiguity-list", sample={"refused": sorted(lc(x) for x in amb)})
-    if set(lc(x) for x in amb) != set(got):
-        r.violate("T1", f"the ambiguity guard refuses {sorted(lc(x) for x in amb)} but the text-mode switching tags are {sorted(got)}: a switching tag missing from the guard is silently mis-tokenized in select/frameset", "src/parser/tree_builder_simulator/ambiguity_guard.rs")
-    # T3 foreign breakout
-    t3 = table_of("causes_foreign_content_exit")
-    got3 = set(lc(k) for k, v in t3.items() if v is True)
-    r.inst("T3:foreign-breakout", sample={"n": len(got3)})
-    if got3 != T.FOREIGN_BREAKOUT:
-        r.violate("T3", f"causes_foreign_content_exit differs from the specification's break-out list: missing {sorted(T.FOREIGN_BREAKOUT - got3)}, extra {sorted(got3 - T.FOREIGN_BREAKOUT)}", "src/parser/tree_builder_simulator/mod.rs")
-    t4a = set(lc(k) for k, v in table_of("is_text_integration_point_in_math_ml").items() if v is True)
-    t4b = set(lc(k) for k, v in table_of("is_html_integration_point_in_svg").items() if v is True)
-    r.inst("T4:integration-points", sample={"mathml": sorted(t4a), "svg": sorted(t4b)})
-    if t4a != T.MATHML_TEXT_INTEGRATION_POINTS:
-        r.violate("T4:mathml", f"MathML text integration points are {sorted(t4a)}, specification: {sorted(T.MATHML_TEXT_INTEGRATION_POINTS)}", "src/parser/tree_builder_simulator/mod.rs")
-    if t4b != T.SVG_HTML_INTEGRATION_POINTS:
-        r.violate("T4:svg", f"SVG HTML integration points are {sorted(t4b)}, specification: {sorted(T.SVG_HTML_INTEGRATION_POINTS)}", "src/parser/tree_builder_simulator/mod.rs")
-    # byte-string literals compared in the RequestLexeme closures
-    fc = idx.one("get_feedback_for_start_tag_in_foreign_content", owner="TreeBuilderSimulator")
-    lits = set()
-    for n in walk(fc.node["body"]):
-        if n.get("k") == "Call" and n["func"].get("k") == "Path" and n["func"]["path"].endswith("eq_case_insensitive"):
-            a = n["args"][1]
-            for m in walk(a):
-                if m.get("k") == "Lit" and m["lit"]["t"] == "bytestr":
-                    lits.add(bytes(m["lit"]["v"]).decode())
-    r.inst("T4:literals", sample={"literals": sorted(lits)})
-    want = T.FONT_BREAKOUT_ATTRS | T.ANNOTATION_XML_HTML_ENCODINGS | {"annotation-xml", "encoding"}
-    if lits != want:
-        r.violate("T4:literals", f"names compared in foreign content are {sorted(lits)}, specification: {sorted(want)}", "src/parser/tree_builder_simulator/mod.rs")
+    rule_tag_tables(ctx, idx, T)
 
     rule_ambiguity_guard(ctx, idx, mir, T)
 
@@ -574,3 +510,71 @@ def rule_self_closing_ns(ctx, mir, rid="R03.7"):
         if not ok:
             r.violate(key, f"{f.key} enters namespace {nsarg} for a start tag without testing its self-closing flag: after a self-closing tag the simulator stays in that namespace, so text-mode switches (<textarea>, <style>, <script>…), CDATA permission and namespace_uri() differ from a WHATWG parser until a matching end tag happens to follow", f.loc())
 
+
+def rule_tag_tables(ctx, idx, T, rid="R03.2"):
+    tags = tag_variants(idx)
+    # ------------------------------------------------------------------ R03.2
+    r = ctx.rule(rid, "tag tables agree with each other and with the HTML specification (text-mode switching tags, foreign-content break-out list, integration points, annotation-xml encodings)", "E-AST (finite-domain abstract interpretation of the tag predicates)", floor=5)
+    it = Interp(idx)
+    domain = [OTHER, EMPTY] + tags
+
+    def table_of(fn_name, post=lambda v: v):
+        f = [x for x in idx.fns if x.name == fn_name and x.owner is None]
+        if len(f) != 1:
+            raise EngineError("anchor fn " + fn_name)
+        out = {}
+        for t in domain:
+            it.effects = []
+            out[t] = post(it.call_fn(f[0], [t]))
+        return out
+    # T2 tag -> text type
+    def tt(v):
+        if isinstance(v, str):
+            return v.split("::")[-1]
+        if isinstance(v, tuple):
+            return v[0].split("::")[-1]
+        return repr(v)
+    t2 = table_of("get_text_type_adjustment", tt)
+    got = {lc(k): v for k, v in t2.items() if v not in ("None",)}
+    r.inst("T2:text-type-by-tag", sample={"table": got})
+    for k in sorted(set(got) | set(T.TEXT_TYPE_BY_TAG)):
+        if got.get(k) != T.TEXT_TYPE_BY_TAG.get(k):
+            r.violate("T2:" + k, f"get_text_type_adjustment maps <{k}> to {got.get(k)}, the specification says {T.TEXT_TYPE_BY_TAG.get(k)}", "src/parser/tree_builder_simulator/mod.rs")
+    # T1 ambiguity assert list == keys of T2
+    f = [x for x in idx.fns if x.name == "assert_not_ambiguous_text_type_switch"]
+    if len(f) != 1:
+        raise EngineError("anchor assert_not_ambiguous_text_type_switch")
+    amb = set()
+    for t in domain:
+        v = it.call_fn(f[0], [t])
+        if isinstance(v, tuple) and v[0] == "Err":
+            amb.add(t)
+    r.inst("T1:ambiguity-list", sample={"refused": sorted(lc(x) for x in amb)})
+    if set(lc(x) for x in amb) != set(got):
+        r.violate("T1", f"the ambiguity guard refuses {sorted(lc(x) for x in amb)} but the text-mode switching tags are {sorted(got)}: a switching tag missing from the guard is silently mis-tokenized in select/frameset", "src/parser/tree_builder_simulator/ambiguity_guard.rs")
+    # T3 foreign breakout
+    t3 = table_of("causes_foreign_content_exit")
+    got3 = set(lc(k) for k, v in t3.items() if v is True)
+    r.inst("T3:foreign-breakout", sample={"n": len(got3)})
+    if got3 != T.FOREIGN_BREAKOUT:
+        r.violate("T3", f"causes_foreign_content_exit differs from the specification's break-out list: missing {sorted(T.FOREIGN_BREAKOUT - got3)}, extra {sorted(got3 - T.FOREIGN_BREAKOUT)}", "src/parser/tree_builder_simulator/mod.rs")
+    t4a = set(lc(k) for k, v in table_of("is_text_integration_point_in_math_ml").items() if v is True)
+    t4b = set(lc(k) for k, v in table_of("is_html_integration_point_in_svg").items() if v is True)
+    r.inst("T4:integration-points", sample={"mathml": sorted(t4a), "svg": sorted(t4b)})
+    if t4a != T.MATHML_TEXT_INTEGRATION_POINTS:
+        r.violate("T4:mathml", f"MathML text integration points are {sorted(t4a)}, specification: {sorted(T.MATHML_TEXT_INTEGRATION_POINTS)}", "src/parser/tree_builder_simulator/mod.rs")
+    if t4b != T.SVG_HTML_INTEGRATION_POINTS:
+        r.violate("T4:svg", f"SVG HTML integration points are {sorted(t4b)}, specification: {sorted(T.SVG_HTML_INTEGRATION_POINTS)}", "src/parser/tree_builder_simulator/mod.rs")
+    # byte-string literals compared in the RequestLexeme closures
+    fc = idx.one("get_feedback_for_start_tag_in_foreign_content", owner="TreeBuilderSimulator")
+    lits = set()
+    for n in walk(fc.node["body"]):
+        if n.get("k") == "Call" and n["func"].get("k") == "Path" and n["func"]["path"].endswith("eq_case_insensitive"):
+            a = n["args"][1]
+            for m in walk(a):
+                if m.get("k") == "Lit" and m["lit"]["t"] == "bytestr":
+                    lits.add(bytes(m["lit"]["v"]).decode())
+    r.inst("T4:literals", sample={"literals": sorted(lits)})
+    want = T.FONT_BREAKOUT_ATTRS | T.ANNOTATION_XML_HTML_ENCODINGS | {"annotation-xml", "encoding"}
+    if lits != want:
+        r.violate("T4:literals", f"names compared in foreign content are {sorted(lits)}, specification: {sorted(want)}", "src/parser/tree_builder_simulator/mod.rs")
